@@ -1836,7 +1836,7 @@ theorem Reachable.rinv {s : St} (hr : Reachable s) (hb : s.cur.txid + 2 < maxU64
   obtain ⟨k, evs, h⟩ := hr
   exact rinv_run (inv_init k) (rinv_init k) h hb
 
-/-! ## Part 5 — consequences used by the property theorems -/
+/-! ## Part 4 — consequences used by the property theorems -/
 
 /-- a state whose pending entries all belong to the open writer -/
 def OwnOnly (s : St) : Prop := ∀ e ∈ s.fl.pending, e.1 = s.cur.txid + 1
@@ -1895,5 +1895,28 @@ theorem failedCommit_enabled {s : St} (hi : Inv s) {w : W} (hw : s.w = some w) :
   unfold freshFree at h2
   simp only [stepAll, step, hw, hfl1, h2]
   rfl
+
+/-! ## Non-vacuity -/
+
+/-- a concrete non-trivial reachable state (a reader open on an old version, pending pages of
+    two transactions, a writer with allocations) — the hypotheses of the property theorems
+    are satisfiable -/
+def demoTrace : List Ev :=
+  [.beginW, .alloc 1 0, .free 3 0, .commit, .beginR, .beginW, .alloc 2 0, .free 4 0, .commit,
+   .beginW, .alloc 1 0]
+
+example : ∃ s, Reachable s ∧ s.cur.txid + 2 < maxU64 ∧ s.readers.length = 1 ∧ s.w.isSome = true ∧
+    s.fl.pendingIds.length = 2 := by
+  have h : (runEvs (init .hashmap) demoTrace).any (fun s =>
+      decide (s.cur.txid + 2 < maxU64) && decide (s.readers.length = 1) && s.w.isSome &&
+      decide (s.fl.pendingIds.length = 2)) = true := by decide
+  cases hs : runEvs (init .hashmap) demoTrace with
+  | none => rw [hs] at h; cases h
+  | some s =>
+  rw [hs] at h
+  have hp : (decide (s.cur.txid + 2 < maxU64) && decide (s.readers.length = 1) && s.w.isSome &&
+      decide (s.fl.pendingIds.length = 2)) = true := h
+  simp only [Bool.and_eq_true, decide_eq_true_eq] at hp
+  exact ⟨s, ⟨.hashmap, demoTrace, hs⟩, hp.1.1.1, hp.1.1.2, hp.1.2, hp.2⟩
 
 end Bolt.Store
